@@ -153,7 +153,7 @@ def extra(res):
 if __name__ == "__main__":
     harness.main(
         "C08", "props.C08", worker,
-        rule=("case = generated valid schema (0-1 imported files, nesting depth <= 3) plus ONE construct from a 114-entry catalogue injected at a random scope "
+        rule=(f"case = generated valid schema (0-1 imported files, nesting depth <= 3) plus ONE construct from a {len(NAMES)}-entry catalogue injected at a random scope "
               "(file scope or a message at any depth, main or imported file) and position: violations of every constraint in the statement and their "
               "valid twins on the other side of each numeric limit (widths 0/1/64/65, capacities 0/1/65535/65536 literal and via constant, field numbers "
               "0/1/255/256, enum value 2^w-1/2^w, messages of 65535/65536 bits with and without the prefix, max_bytes = nbytes/nbytes-1, alignment 8/9, "
